@@ -30,6 +30,11 @@ def shards(tier, seed):
               "stmts": 10 if tier == "quick" else 20, "steps": 24 if tier == "quick" else 40} for i in range(NSHARDS)]
     for i in range(NSHARDS):
         specs.append({"kind": "enum_targets", "part": i, "parts": NSHARDS, "stride": 10 if tier == "quick" else 1})
+    for i in range(NSHARDS):
+        specs.append({"kind": "expr_layer", "which": "single", "maxw": 2 if tier == "quick" else 3, "part": i, "parts": NSHARDS,
+                      "stride": 3 if tier == "quick" else 1})
+        specs.append({"kind": "expr_layer", "which": "padded", "maxw": 2, "part": i, "parts": NSHARDS,
+                      "stride": 4 if tier == "quick" else 1})
     return specs
 
 
@@ -152,6 +157,138 @@ def run_target_group(env, targets, cases, out):
         out["violations"].append({"mechanism": "enum-target-simulator-vs-rtlil:" + kinds, "detail": b})
 
 
+def run_expr_group(env, exprs, valuations, out):
+    """Expressions as comb outputs: simulator vs evaluated RTLIL (vs exprref as third opinion)."""
+    from amaranth.hdl import Signal, Module, Shape, Cat
+    from amaranth.hdl._ir import PortDirection as PD
+    from amaranth.sim import Simulator
+    from amaranth.back import rtlil
+    from .. import expr as X
+    from ..common import exc_origin, mask
+    from ..rtlil import parse as P, eval as E
+    env = [tuple(x) for x in env]
+
+    def make():
+        sigs = [Signal(Shape(w, s), name=f"i{k}") for k, (w, s) in enumerate(env)]
+        m = Module()
+        outs = []
+        for k, e in enumerate(exprs):
+            v = X.build(e, sigs)
+            o = Signal(v.shape(), name=f"o{k}")
+            m.d.comb += o.eq(v)
+            outs.append(o)
+        ports = {f"i{k}": (sg, PD.Input) for k, sg in enumerate(sigs)}
+        ports.update({f"o{k}": (o, PD.Output) for k, o in enumerate(outs)})
+        return m, sigs, outs, ports
+    try:
+        m, sigs, outs, ports = make()
+        sim = Simulator(m)
+        m2 = make()
+        ev = E.Evaluator(P.parse(rtlil.convert(m2[0], ports=m2[3], emit_src=False)))
+    except (P.ParseError, E.EvalError) as ex:
+        out["violations"].append({"mechanism": "expr-layer-rtlil-unreadable", "detail": {"env": env, "exprs": exprs[:2], "error": str(ex)[:200]}})
+        return
+    except Exception as ex:
+        if exc_origin(ex) != "repo":
+            raise
+        if len(exprs) > 1:
+            for e in exprs:
+                run_expr_group(env, [e], valuations, out)
+            return
+        out["violations"].append({"mechanism": f"expr-layer-build-exception:{type(ex).__name__}", "detail": {"env": env, "expr": exprs[0], "exception": repr(ex)[:200]}})
+        return
+    bad = {}
+
+    async def tb(ctx):
+        for vals in valuations:
+            for sg, v in zip(sigs, vals):
+                ctx.set(sg, v)
+            for k, ((w, s), v) in enumerate(zip(env, vals)):
+                try:
+                    ev.set(f"i{k}", v & mask(w))
+                except E.EvalError:
+                    pass
+            ev.step()
+            for k, o in enumerate(outs):
+                if k in bad:
+                    continue
+                w = len(o)
+                sv = ctx.get(o) & mask(w)
+                rv, rx = ev.get(f"o{k}")
+                out["evaluations"] += 1
+                if rx:
+                    out["extra"]["skipped_undef_bits"] += bin(rx).count("1")
+                if (sv & ~rx) != (rv & ~rx):
+                    try:
+                        doc = X.ref_eval(exprs[k], env, list(vals)) & mask(w)
+                    except Exception:
+                        doc = None
+                    bad[k] = {"env": env, "expr": exprs[k], "vals": list(vals), "simulator": sv, "rtlil": rv, "rtlil_undef": rx,
+                              "documented": doc, "deviates": "rtlil" if doc == sv else "simulator" if doc is not None and (doc & ~rx) == (rv & ~rx) else "unknown"}
+    sim.add_testbench(tb)
+    sim.run()
+    seen = set()
+    for k, b in bad.items():
+        key = (b["expr"][0], b["deviates"])
+        if key in seen:
+            continue
+        seen.add(key)
+        out["violations"].append({"mechanism": f"expr-layer-simulator-vs-rtlil:{b['expr'][0]}:{b['deviates']}", "detail": b})
+
+
+def padded_operand_exprs(maxw):
+    """Binary/unary operators over operands with constant padding bits (what the backend's operand
+    shortening looks at): Cat(x, 0...), Cat(x, 1), sign reinterpretations of those, constants."""
+    from .. import expr as X
+    from .c01 import shapes_upto
+    A, B = ["sig", 0], ["sig", 1]
+
+    def forms(x):
+        return [x, ["as_signed", ["cat", [x, ["constsh", 0, 1, False]]]], ["cat", [x, ["constsh", 0, 2, False]]],
+                ["as_signed", ["cat", [x, ["constsh", 1, 1, False]]]], ["as_signed", ["cat", [x, ["constsh", 0, 2, False]]]],
+                ["cat", [["constsh", 0, 1, False], x]], ["as_signed", x], ["as_unsigned", x]]
+    S = [s for s in shapes_upto(maxw) if s[0] >= 1]
+    for a in S:
+        for b in S:
+            env = [a, b]
+            for fa in forms(A):
+                for fb in forms(B)[:5]:
+                    for op in X.BINARY:
+                        yield env, [op, fa, fb]
+        for fa in forms(A):
+            for op in ("neg", "inv", "abs", "bool", "any", "all", "xorr"):
+                yield [a], [op, fa]
+            for n in (0, 1, 2):
+                yield [a], ["shift_right", fa, n]
+                yield [a], ["shift_left", fa, n]
+
+
+def run_expr_layer(spec, out):
+    from .. import expr as X
+    from .. import exprsim
+    from .c01 import enum_single, group_by_env
+    pairs = []
+    src = list(enum_single(spec["maxw"])) if spec["which"] == "single" else list(padded_operand_exprs(spec["maxw"]))
+    for env, e in src:
+        try:
+            X.ref_shape(e, [tuple(x) for x in env])
+        except X.IllFormed:
+            continue
+        pairs.append((env, e))
+    groups = list(group_by_env(pairs, 40))[spec["part"]::spec["parts"]]
+    if spec.get("stride", 1) > 1:
+        groups = groups[::spec["stride"]]
+    n = 0
+    for env, exprs in groups:
+        run_expr_group(env, exprs, list(exprsim.all_valuations([tuple(x) for x in env])), out)
+        n += len(exprs)
+        for e in exprs[:3]:
+            out["fps"].add(fp(["expr", env, e]))
+    out["extra"]["enumerated_expressions"] = out["extra"].get("enumerated_expressions", 0) + n
+    if spec.get("stride", 1) == 1:
+        out["exhaustive"].append(f"expression layer '{spec['which']}' widths<={spec['maxw']} x all values: simulator vs evaluated RTLIL")
+
+
 def run_enum_targets(spec, out):
     from . import c05
     from .. import target as T_
@@ -203,8 +340,11 @@ def run_shard(spec):
     instrument.install_slot_invariant()
     out = {"evaluations": 0, "fps": set(), "hist": {}, "violations": [], "samples": [], "exhaustive": [],
            "extra": {"skipped_undef_bits": 0, "designs": 0, "documents": 0}}
-    if spec.get("kind") == "enum_targets":
-        run_enum_targets(spec, out)
+    if spec.get("kind") in ("enum_targets", "expr_layer"):
+        if spec["kind"] == "enum_targets":
+            run_enum_targets(spec, out)
+        else:
+            run_expr_layer(spec, out)
         out["violations"].extend(instrument.VIOLATIONS)
         instrument.VIOLATIONS.clear()
         out["monitors"] = dict(instrument.COUNTERS)
@@ -239,6 +379,20 @@ def run_shard(spec):
                 out["samples"].append({"design": design, "steps": steps[:3]})
             if len(out["violations"]) > nv + 3:
                 break
+    # memory-only designs: nothing but the memory changes at a clock edge (the comb read port must
+    # still follow the write in the same instant)
+    for n in range(max(2, spec["programs"] // 8)):
+        aw = rng.choice([1, 2])
+        d = {"inputs": [[aw, False], [4, rng.random() < 0.3], [1, False], [aw, False]], "comb": [], "sync": [], "fsms": [], "stmts": []}
+        sp = S.Spec(d)
+        design = {"spec": d, "tree": [-1, 0], "anon": [False, rng.random() < 0.5], "place": [], "splits": [],
+                  "mem": {"mod": rng.randrange(2), "w": 4, "depth": rng.choice([2, 3, 4]) if aw == 2 else 2, "wa": 0, "wd": 1, "we": 2, "ra": 3,
+                          "transparent": rng.random() < 0.5, "init": [rng.getrandbits(4) for _ in range(4)],
+                          "sync_read": rng.random() < 0.4}}
+        steps = c02.make_stimulus(rng, sp, spec["steps"] * 2)
+        cosim.run(design, steps, out, check_doc=check_doc)
+        out["extra"]["designs"] += 1
+        out["hist"]["memory-only-design"] = out["hist"].get("memory-only-design", 0) + 1
     out["violations"].extend(instrument.VIOLATIONS)
     instrument.VIOLATIONS.clear()
     out["monitors"] = dict(instrument.COUNTERS)
